@@ -143,6 +143,8 @@ class StmtMixin:
             if isinstance(idx, slice):
                 raise Undecided("slice store on Seq")
             i = z3ify(idx)
+            if isinstance(idx, int) and idx < 0:
+                i = z3.simplify(z3ify(base.len) + idx)
             inb = self.in_bounds(i, base.len)
             if not self.feasible(st, inb):
                 raise PyRaise("IndexError")
@@ -273,8 +275,8 @@ class StmtMixin:
             if fr.fn is not None:
                 loops = [x for x in ast.walk(fr.fn) if isinstance(x, (ast.For, ast.While))]
                 loops.sort(key=lambda x: (x.lineno, x.col_offset))
-                fr.loop_ids = {id(x): i for i, x in enumerate(loops)}
-        k = fr.loop_ids.get(id(node), -1)
+                fr.loop_ids = {(x.lineno, x.col_offset): i for i, x in enumerate(loops)}
+        k = fr.loop_ids.get((node.lineno, node.col_offset), -1)
         c = self.contract_for(fr)
         if c is None:
             return k, None
